@@ -44,7 +44,7 @@ def cfgs_quick():
         for ln in (16, 40, 70):
             L.append((2, "none", dict(T=2, len=ln, enc=enc, stateful=1, maxexec=40000), 1))
         L.append((2, "none", dict(T=2, len=40, enc=enc, stateful=1, spurious=1, maxexec=40000), 1))
-        L.append((2, "none", dict(T=3, len=40, enc=enc, stateful=1, maxexec=60000), 1))
+        L.append((2, "none", dict(T=3, len=40, enc=enc, stateful=1, maxexec=120000), 1))
         L.append((1, "none", dict(T=2, len=40, enc=enc, stateful=1, maxexec=40000), 1))
         # POSIX allows condition waits to return spuriously: one injected spurious wake-up per execution (counts as a deviation)
         for ln in (40, 70):
@@ -169,8 +169,10 @@ def tsan_aux(tier, which="pipe"):
     return info, viol
 
 
-UNMODELLED = ("pthread_rwlock", "pthread_spin", "pthread_barrier", "sem_wait", "sem_post", "sem_timedwait", "__atomic_wait", "__atomic_notify", "futex",
-              "pthread_mutex_timedlock", "pthread_mutex_clocklock", "pthread_once", "__gthread_once", "call_once", "_M_wait", "__platform_wait")
+# modelled besides the pthread mutex/condvar/create/join set: pthread_once (std::call_once) and libstdc++'s futex-word waits
+# (__atomic_futex_unsigned_base::_M_futex_wait_until/_M_futex_notify_all = std::future/promise/packaged_task/async), see sched/vsched.c
+UNMODELLED = ("pthread_rwlock", "pthread_spin", "pthread_barrier", "sem_wait", "sem_post", "sem_timedwait", "__atomic_wait", "__atomic_notify", "SYS_futex",
+              "pthread_mutex_timedlock", "pthread_mutex_clocklock", "_M_wait", "__platform_wait", "__atomic_semaphore", "_M_acquire", "counting_semaphore", "latch")
 
 
 def unmodelled_sync_primitives(exe_path):
@@ -226,7 +228,8 @@ def run(pid, tier, replay=None):
         def cost(i):
             bufsz, san, args, nsh = plan[meta[i][0]]
             return ((args.get("T", 1) - 1) * 10 + 4 if args.get("stateful") else args.get("T", 1) * 10 + args.get("bound", 9) + (50 if args.get("sleep") and args.get("T", 1) > 1 else 5 if args.get("sleep") else 0) + (3 if san == "address" else 0), args.get("len", 0))
-        order = sorted(range(len(jobs)), key=cost)
+        # quick tier: everything completes well inside the deadline, so the dearest jobs start first (shortest makespan)
+        order = sorted(range(len(jobs)), key=cost, reverse=(tier != "thorough"))
         res = c.run_jobs([jobs[i] for i in order], deadline=t0 + deadline_s)
     except c.CannotDecide as e:
         c.log(str(e))
@@ -270,6 +273,14 @@ def run(pid, tier, replay=None):
         print("NOTE: this exploration also saw a violation that belongs to another property: %s (run that property's check)" % o)
     if agg.flags.get("abstraction_deterministic", True) is False:
         print("NOTE: the state abstraction was NOT deterministic on this tree (successor mismatches): the state-matching configurations are not claimed; the bounded searches stand on their own")
+    if agg.flags.get("no_futex_words", True) is False:
+        # futures/promises publish through atomics the happens-before monitor cannot see (only their futex waits, once routines and
+        # thread joins are edges): a happens-before race alone is then not claimed unless some explored schedule also shows a literal
+        # consequence (wrong output, wrong chunk assignment, literal overlap, deadlock)
+        literal = [v for v in viol_all if not (v.get("prop") == "C14" and v.get("key") == "hb-race")]
+        if not literal and any(v.get("key") == "hb-race" for v in mine):
+            print("NOTE: happens-before races were reported on a tree that synchronises through std::future/promise; no explored schedule shows a literal consequence, so they are not claimed (atomic publication is invisible to the monitor)")
+            mine = [v for v in mine if v.get("key") != "hb-race"]
     unconfirmed = [v for v in mine if not v.get("confirmed", True)]
     if unconfirmed:
         cannot = "a violation did not replay deterministically: " + unconfirmed[0]["desc"][:200]
